@@ -211,12 +211,14 @@ def eq_simplifier(a, b):
         if a.args[0].op == "BVV" and a.args[0].args[0] == 1:  # 1 ^ expr == 0
             return a.args[1] == 1
 
-        # (expr & a) ^ a == 0  ->  expr & a != 0
+        # (expr & a) ^ a == 0  ->  expr & a != 0   (only valid if a has exactly one bit set)
         if (
             a.args[1].op == "BVV"
             and a.args[0].op == "__and__"
             and a.args[0].args[1].op == "BVV"
             and a.args[0].args[1].args[0] == a.args[1].args[0]
+            and a.args[1].args[0] != 0
+            and a.args[1].args[0] & (a.args[1].args[0] - 1) == 0
         ):
             return a.args[0] != 0
         if (
@@ -224,6 +226,8 @@ def eq_simplifier(a, b):
             and a.args[0].op == "__and__"
             and a.args[0].args[0].op == "BVV"
             and a.args[0].args[0].args[0] == a.args[1].args[0]
+            and a.args[1].args[0] != 0
+            and a.args[1].args[0] & (a.args[1].args[0] - 1) == 0
         ):
             return a.args[0].args[1] & a.args[0].args[0] != 0
 
@@ -309,12 +313,14 @@ def ne_simplifier(a, b):
         if a.args[0].op == "BVV" and a.args[0].args[0] == 1:
             return a.args[1] != 1
 
-        # (expr & a) ^ a != 0  ->  expr & a == 0
+        # (expr & a) ^ a != 0  ->  expr & a == 0   (only valid if a has exactly one bit set)
         if (
             a.args[1].op == "BVV"
             and a.args[0].op == "__and__"
             and a.args[0].args[1].op == "BVV"
             and a.args[0].args[1].args[0] == a.args[1].args[0]
+            and a.args[1].args[0] != 0
+            and a.args[1].args[0] & (a.args[1].args[0] - 1) == 0
         ):
             return a.args[0] == 0
         if (
@@ -322,6 +328,8 @@ def ne_simplifier(a, b):
             and a.args[0].op == "__and__"
             and a.args[0].args[0].op == "BVV"
             and a.args[0].args[0].args[0] == a.args[1].args[0]
+            and a.args[1].args[0] != 0
+            and a.args[1].args[0] & (a.args[1].args[0] - 1) == 0
         ):
             return a.args[0].args[1] & a.args[0].args[0] == 0
 
